@@ -304,6 +304,95 @@ for _in in (True, False):
                           stubs=["followPerpendicular -> tagged points", "parallel_map -> serial"], bounds="3 radial values x 3 skeleton points"))
 OBLIGATIONS.append(Ob("fillRZ_index_map_and_xpoint_pinning", ob_fillrz, tier="quick", family="fillRZ", encodes=["hypnotoad.core.mesh:MeshRegion.fillRZ"],
                       desc="centre/xlow/ylow/corners index map; exactly the flagged corners are replaced by the X-point", bounds="nx=1, ny=2, all 16 flag combinations"))
+def ob_global_arrays(env):
+    """BoutMesh.geometry/addFromRegions: every entry of the global arrays written to the file (centre, _xlow, _ylow, _corners and the
+    three other corner variants) is the region's value at the corresponding local index"""
+    fn, info = slices.slice_function(mesh_mod.BoutMesh.geometry, lambda n: isinstance(n, ast.FunctionDef) and n.name == "addFromRegions",
+                                     lambda n: isinstance(n, ast.FunctionDef) and n.name == "addFromRegionsXArray", ["self"], mesh_mod.__dict__, name="geometry_addFromRegions")
+    # two regions side by side in x and two stacked in y (a 2x2 block layout with unequal sizes)
+    layout = {0: (slice(0, 1), slice(0, 2)), 1: (slice(1, 3), slice(0, 2)), 2: (slice(0, 1), slice(2, 3)), 3: (slice(1, 3), slice(2, 3))}
+    with sym_numpy(env, mla_mod, mesh_mod):
+        regs = {}
+        for rid, (xs, ys) in layout.items():
+            nx, ny = xs.stop - xs.start, ys.stop - ys.start
+            r = types.SimpleNamespace(myID=rid)
+            a = MultiLocationArray(nx, ny)
+            for loc in ("centre", "xlow", "ylow", "corners"):
+                arr = getattr(a, loc)
+                for idx in numpy.ndindex(*arr.shape):
+                    arr[idx] = env.real("v%d_%s_%d_%d" % (rid, loc, idx[0], idx[1]))
+            a.attributes = {}
+            r.Rxy = a
+            regs[rid] = r
+        me = types.SimpleNamespace(nx=3, ny=3, regions=regs, region_indices=layout, fields_to_output=[])
+        loc_ = fn(me)
+        loc_["addFromRegions"]("Rxy", all_corners=True)
+    env.witness("collected")
+    g = me.Rxy
+    env.claim("field_registered_for_output", me.fields_to_output == ["Rxy"] and g.attributes.get("bout_type") == "Field2D")
+    for rid, (xs, ys) in layout.items():
+        a = regs[rid].Rxy
+        for i in range(xs.stop - xs.start):
+            for j in range(ys.stop - ys.start):
+                X, Y = xs.start + i, ys.start + j
+                env.claim_eq("global_centre=region_centre", g.centre[X, Y], a.centre[i, j])
+                env.claim_eq("global_xlow=region_xlow(inner_face)", g.xlow[X, Y], a.xlow[i, j])
+                env.claim_eq("global_ylow=region_ylow(lower_face)", g.ylow[X, Y], a.ylow[i, j])
+                env.claim_eq("global_corners=region_lower_left_corner", g.corners[X, Y], a.corners[i, j])
+                env.claim_eq("global_lower_right_corners=region_corner[i+1,j]", g.lower_right_corners[X, Y], a.corners[i + 1, j])
+                env.claim_eq("global_upper_right_corners=region_corner[i+1,j+1]", g.upper_right_corners[X, Y], a.corners[i + 1, j + 1])
+                env.claim_eq("global_upper_left_corners=region_corner[i,j+1]", g.upper_left_corners[X, Y], a.corners[i, j + 1])
+
+
+def _mk_rzboundary(has_upper):
+    """getRZBoundary: the last ylow / corner row of a region becomes the POINT (both R and Z) of its upper neighbour's first row, so
+    that it lies on the flux surface the neighbour's point lies on; everything else, and regions without an upper neighbour, untouched"""
+    def body(env):
+        nx, ny = 1, 2
+        with sym_numpy(env, mla_mod, mesh_mod):
+            regs = []
+            for rid in range(2):
+                r = stub_region(nx, ny, True)
+                r.myID = rid
+                r.Rxy, r.Zxy = MultiLocationArray(nx, ny), MultiLocationArray(nx, ny)
+                for arr, nm in ((r.Rxy, "R"), (r.Zxy, "Z")):
+                    for loc in ("centre", "xlow", "ylow", "corners"):
+                        a = getattr(arr, loc)
+                        for idx in numpy.ndindex(*a.shape):
+                            a[idx] = env.real("%s%d_%s_%d_%d" % (nm, rid, loc, idx[0], idx[1]))
+                regs.append(r)
+            a, b = regs
+            a.connections["upper"] = 1 if has_upper else None
+            b.connections["lower"] = 0 if has_upper else None
+            mp = types.SimpleNamespace(regions={0: a, 1: b})
+            a.meshParent = b.meshParent = mp
+            before = {(nm, loc): getattr(getattr(a, nm), loc).copy() for nm in ("Rxy", "Zxy") for loc in ("centre", "xlow", "ylow", "corners")}
+            b_before = {(nm, loc): getattr(getattr(b, nm), loc).copy() for nm in ("Rxy", "Zxy") for loc in ("centre", "xlow", "ylow", "corners")}
+            a.getRZBoundary()
+        env.witness("returned")
+        for nm in ("Rxy", "Zxy"):
+            for loc in ("centre", "xlow", "ylow", "corners"):
+                now = getattr(getattr(a, nm), loc)
+                for idx in numpy.ndindex(*now.shape):
+                    last_row = loc in ("ylow", "corners") and idx[1] == now.shape[1] - 1
+                    if has_upper and last_row:
+                        env.claim_eq("upper_boundary_%s_is_the_neighbour's_first_row_point:%s" % (loc, nm), now[idx], b_before[(nm, loc)][idx[0], 0])
+                    else:
+                        env.claim_eq("other_entries_untouched:%s.%s" % (nm, loc), now[idx], before[(nm, loc)][idx])
+                nb = getattr(getattr(b, nm), loc)
+                for idx in numpy.ndindex(*nb.shape):
+                    env.claim_eq("neighbour_untouched:%s.%s" % (nm, loc), nb[idx], b_before[(nm, loc)][idx])
+    return body
+
+
+OBLIGATIONS.append(Ob("global_arrays_from_regions", ob_global_arrays, tier="quick", family="addFromRegions", encodes=["hypnotoad.core.mesh:BoutMesh.geometry"],
+                      desc="global centre/xlow/ylow/corner arrays (and the lower-right, upper-right, upper-left corner variants) hold each region's value at the matching local index",
+                      bounds="2x2 block layout of regions with sizes 1x2, 2x2, 1x1, 2x1; all values symbolic"))
+for _u in (True, False):
+    OBLIGATIONS.append(Ob("getRZBoundary_%s" % ("with_upper_neighbour" if _u else "at_upper_target"), _mk_rzboundary(_u), tier="quick", family="getRZBoundary",
+                          encodes=["hypnotoad.core.mesh:MeshRegion.getRZBoundary"],
+                          desc="the shared y-face takes BOTH coordinates of the upper neighbour's point (a point of the same flux surface), nothing else changes",
+                          bounds="nx=1, ny=2, all coordinates symbolic"))
 OBLIGATIONS.append(Ob("newton_acceptance_contract", ob_newton, tier="quick", family="refinement", encodes=["hypnotoad.core.equilibrium:PsiContour.refinePointNewton"],
                       desc="a returned point satisfies |psi-psival| < atol*max(1,|psival|)", stubs=["psi uninterpreted"], bounds="all paths of the <= 12 iteration loop",
                       max_paths=400))
